@@ -90,8 +90,9 @@ void harness (void)
     { /* a sentence, a non-sentence and two more sentences of each good definition */
       static const char *const in3[4] = { "a+a*a", "a+*a", "a*a+a", "a" }, *const in10[4] = { "a;a;", "a;ba;", "a;", "a;a;a;" }, *const in7[4] = { "abba", "abab", "baab", "bb" },
         *const in9[4] = { "(a+a)+a", "(a++a)+a", "a+a", "(a)" }, *const in42[4] = { "piqrisviw", "pisviw", "minyizviwtiuris", "rijs" },
+        *const in47[4] = { "aiobipciqdireisfitgiuhivkiwlixmiynizAiOBiPCiQDiREiSFiTGiUHiVKiWLiXMiYNiZ", "aiZ", "NiZMiYLiXKiWHiVGiU", "NijZ" },
         *const in43[4] = { "aiobipciqdireisfitgiuhivkiwlixmiyniz", "aiz", "nizmiylixkiw", "hijv" };
-      const char *id = catalogue[def_grammar[i]].id; const char *const *in = strcmp (id, "G3") == 0 ? in3 : strcmp (id, "G10") == 0 ? in10 : strcmp (id, "G9") == 0 ? in9 : strcmp (id, "G42") == 0 ? in42 : strcmp (id, "G43") == 0 ? in43 : in7;
+      const char *id = catalogue[def_grammar[i]].id; const char *const *in = strcmp (id, "G3") == 0 ? in3 : strcmp (id, "G10") == 0 ? in10 : strcmp (id, "G9") == 0 ? in9 : strcmp (id, "G42") == 0 ? in42 : strcmp (id, "G43") == 0 ? in43 : strcmp (id, "G47") == 0 ? in47 : in7;
       int k;
       sx_assume (in != in7 || strcmp (id, "G7") == 0);
       for (k = 0; k < 4; k++) inputs[i][k] = in[k];
